@@ -43,6 +43,17 @@ def trajectory_native(vc):
     T = vc.choice("temperature", [1.0, 2.0, 0.4])
     estimated_gradient = vc.bool("gradient_estimated_by_finite_differences")
     ch, post, bounds = _chain(vc, rng, d, bounded_, mass_kind, T, grad=not estimated_gradient)
+    if vc.bool("mass_re_estimated_from_the_chain"):
+        # estimate_mass() replaces the mass object: drift, momentum law and kinetic energy must all follow the new one
+        from contracts.common import quiet
+        quiet(ch.advance, 40)
+        with np.errstate(all="ignore"):
+            ch.estimate_mass(burn=1, diagonal=bool(bounded_ or d == 1 or rng.integers(0, 2)))
+        if not np.all(np.isfinite(np.atleast_1d(ch.mass.inv_mass))) or np.any(np.atleast_1d(ch.mass.inv_mass).diagonal() <= 0
+                                                                                if np.ndim(ch.mass.inv_mass) == 2
+                                                                                else np.atleast_1d(ch.mass.inv_mass) <= 0):
+            from pyvc.vc import SkipCase
+            raise SkipCase()
     n_steps = int(rng.integers(1, 30))
     ch.ES.epsilon = 0.05 if not bounded_ else 0.3 * float(np.min(bounds[1] - bounds[0]))
     t0 = ch.theta[-1].copy()
@@ -83,6 +94,13 @@ def trajectory_native(vc):
     R = np.array([ch.mass.sample_momentum(ch.rng) for _ in range(4000)])
     ke = np.array([ch.kinetic_energy(r) for r in R])
     vc.ensures("kinetic_energy_matches_momentum_law", abs(ke.mean() - 0.5 * d) < 0.06 * d + 0.02)
+    # ... in full: the momenta have the mass matrix (the inverse of the inverse-mass used by get_velocity) as their covariance
+    im = ch.mass.inv_mass
+    Minv = im * np.eye(d) if np.ndim(im) == 0 else (np.diag(im) if np.ndim(im) == 1 else np.asarray(im))
+    Mm = np.linalg.inv(Minv)
+    Cr = (R.T @ R) / R.shape[0]
+    vc.inputs["momentum_covariance_error"] = float(np.abs(Cr - Mm).max() / np.abs(Mm).max())
+    vc.ensures("momentum_covariance_is_the_mass_matrix", float(np.abs(Cr - Mm).max()) < 0.12 * float(np.abs(Mm).max()))
 
 
 @bounded("C07", "finite_difference_native", native_runs=20)
@@ -463,6 +481,25 @@ def matrix_mass(vc):
     vc.ensures_forall("velocity_commutes_with_component_sign_flips", d, lambda i: vs[i] == s[i] * v[i])
 
 
+@contract("C07", "matrix_mass_momentum_law", native=False, replay_with="trajectory_native")
+def matrix_mass_momentum_law(vc):
+    """momenta are drawn as L xi with xi standard normal and L L^T = (inverse mass)^-1: their covariance is the mass matrix, the
+    one whose inverse get_velocity / kinetic_energy use"""
+    from pyvc import matalg as MA
+    from pyvc.objlist import RngModel, draws
+    d = vc.int("d", lo=2)
+    A = MA.atom("inv_mass", d, d, symmetric=True)
+    Mn = vc.new(MASS, "MatrixMass", A, d)
+    L = vc.attr(Mn, "L")
+    vc.ensures("factor_times_its_transpose_is_the_mass_matrix", MA.mat_eq(L @ L.T, MA.inverse_of(A)))
+    r = vc.call(Mn, "sample_momentum", RngModel("rng"))
+    dr = draws("normal_vec")
+    vc.ensures("one_standard_normal_vector_is_drawn", len(dr) == 1 and dr[0][3] == 0.0 and dr[0][4] == 1.0)
+    if len(dr) == 1:
+        xi = dr[0][2]
+        vc.ensures("momentum_is_factor_times_standard_normals", MA.mat_eq(r, L @ xi))
+
+
 @bounded("C07", "matrix_mass_bounds_native", native_runs=6)
 def matrix_mass_bounds_native(vc):
     seed = vc.int("seed", lo=0, hi=10 ** 6)
@@ -478,3 +515,30 @@ def matrix_mass_bounds_native(vc):
         worst = max(worst, float(np.abs(t2 - t0).max()), float(np.abs(r2 + r0).max()))
     vc.inputs["worst_return_error"] = worst
     vc.ensures("reversible_with_matrix_mass_and_bounds", worst < 1e-5)
+
+
+@bounded("C07", "reflected_energy_native", native_runs=1)
+def reflected_energy_native(vc):
+    """STRICT energy check for trajectories that bounce: the property asks for an energy change that shrinks quadratically with
+    the step size *with or without bounds*.  The reflecting integrator folds the position and flips the momentum at the end of a
+    whole drift, and the following kick uses the gradient on one side of the wall for the whole step: where the log-density has a
+    non-zero slope at the wall this is a momentum error of first order in the step per bounce (recorded finding; diagonal mass,
+    so unrelated to the matrix-mass finding)."""
+    from inference.mcmc import HamiltonianChain
+    seed = vc.int("seed", lo=0, hi=1000)
+    rng = np.random.default_rng(seed)
+    c, s = np.array([0.8, -0.3]), np.array([1.0, 0.7])
+    post = lambda t: float(-0.5 * np.sum(((t - c) / s) ** 2) - 0.1 * np.sum(t ** 4))
+    grad = lambda t: -((t - c) / s ** 2) - 0.4 * t ** 3
+    t0 = rng.uniform(-0.5, 0.5, size=2)
+    r0 = rng.normal(size=2) * 1.5
+    ch = HamiltonianChain(posterior=post, grad=grad, start=t0, epsilon=0.02, bounds=(np.array([-1.0, -1.0]), np.array([1.0, 1.0])),
+                          inverse_mass=np.array([0.5, 2.0]), display_progress=False)
+    errs = []
+    for eps in (0.02, 0.01, 0.005, 0.0025):
+        ch.ES.epsilon = eps
+        a, b = ch.run_leapfrog(t0.copy(), r0.copy(), int(round(4.0 / eps)))
+        errs.append(abs(ch.hamiltonian(a, b) - ch.hamiltonian(t0, r0)))
+    vc.inputs["energy_errors_for_steps_0.02_0.01_0.005_0.0025"] = [float(e) for e in errs]
+    # quadratic: a factor ~16 over two halvings; accept anything beyond a factor 6 (first order gives ~4, no convergence ~1)
+    vc.ensures("energy_error_second_order_with_reflections", errs[0] < 1e-9 or (errs[2] <= errs[0] / 6.0 and errs[3] <= errs[1] / 6.0))
